@@ -462,6 +462,40 @@ fn many_errors_cells(ctx: &vh::explore::Ctx, stats: &mut Stats) {
     }
 }
 
+/// The verdict oracle, plus (std, histories of at most two calls): the same history verified through
+/// `Termination::report()` gives FAILURE exactly when verification by drop / verify() fails.
+fn c08_extra(case: &Case, history: &[Call], out: &RunOut) -> Result<(), (&'static str, String)> {
+    verdict_extra(case, history, out)?;
+    #[cfg(feature = "std")]
+    if history.len() <= 2 {
+        if let Some(verdict) = &out.verdict {
+            let original = vh::spec::build_mock(&case.config);
+            let n_clones = history.iter().map(|c| c.via & 0x7f).max().unwrap_or(0) as usize;
+            let clones: Vec<unimock::Unimock> = (0..n_clones).map(|_| original.clone()).collect();
+            for c in history {
+                let inst = if c.via & 0x7f == 0 { &original } else { &clones[(c.via & 0x7f) as usize - 1] };
+                if c.via & 0x80 != 0 {
+                    let _ = observe_call_on_thread(inst, c.m, c.x);
+                } else {
+                    let _ = observe_call(inst, c.m, c.x);
+                }
+            }
+            drop(clones);
+            let failed = matches!(verdict, Verdict::Failed(_));
+            match catch(move || std::process::Termination::report(original)) {
+                Ok(code) => {
+                    let is_failure = format!("{code:?}") == format!("{:?}", std::process::ExitCode::FAILURE);
+                    if is_failure != failed {
+                        return Err(("verdict-report()", format!("report() returned {code:?} but verification otherwise gave {verdict:?}")));
+                    }
+                }
+                Err(msg) => return Err(("verdict-report()", format!("report() panicked: {msg}"))),
+            }
+        }
+    }
+    Ok(())
+}
+
 fn main() {
     silence_panics();
     set_user_panic_arg(Some(2));
@@ -497,7 +531,7 @@ fn main() {
             }
         }
     }
-    handle_replay(ctx, opts, &verdict_extra);
+    handle_replay(ctx, opts, &c08_extra);
 
     let quick = ctx.quick() || ctx.variant != "std";
     // worker threads of par_map need the user-panic switch too
@@ -548,7 +582,7 @@ fn main() {
     ctx.watchdog(180, || J::Str("no progress in the C08 explorer".into()));
     let parts = par_map(&cases, |_, case| {
         set_user_panic_arg(Some(2));
-        explore_case(ctx, case, opts, &verdict_extra)
+        explore_case(ctx, case, opts, &c08_extra)
     });
     let mut stats = Stats::default();
     for p in parts {
@@ -575,7 +609,7 @@ fn main() {
         .collect();
     let parts = par_map(&nv_cases, |_, case| {
         set_user_panic_arg(Some(2));
-        explore_case(ctx, case, opts_nv, &verdict_extra)
+        explore_case(ctx, case, opts_nv, &c08_extra)
     });
     for p in parts {
         stats.merge(p);
